@@ -261,6 +261,45 @@ impl ProtoCtx {
                 },
                 Err(_) => "err".into(),
             } }
+            // the JSON text itself (compact serde_json rendering) of a decoded witness: compared with `Json.render` of the model
+            ("json_text", 2) => match deserialize_witness(&parse_bytes(w[1])?) {
+                Ok((wi, _)) => match rln_witness_to_json(&wi) {
+                    Ok(j) => format!("ok {}", serde_json::to_string(&j).ok()?),
+                    Err(_) => "err".into(),
+                },
+                Err(_) => "err".into(),
+            },
+            ("bigint_text", 2) => match deserialize_witness(&parse_bytes(w[1])?) {
+                Ok((wi, _)) => match rln_witness_to_bigint_json(&wi) {
+                    Ok(j) => format!("ok {}", serde_json::to_string(&j).ok()?),
+                    Err(_) => "err".into(),
+                },
+                Err(_) => "err".into(),
+            },
+            // `rln_witness_from_json` on an object given field by field: key=n:1,2,3 (array of numbers; n:- empty),
+            // key=s:<hex utf8> (string), key=t:<hex>,<hex> (array of strings), key=o (null)
+            ("json_from", _) => {
+                let mut m = serde_json::Map::new();
+                for tok in &w[1..] {
+                    let (k, v) = tok.split_once('=')?;
+                    let val = if v == "o" {
+                        serde_json::Value::Null
+                    } else if let Some(r) = v.strip_prefix("n:") {
+                        if r == "-" { serde_json::Value::Array(vec![]) } else {
+                            serde_json::Value::Array(r.split(',').map(|x| x.parse::<u64>().ok().map(serde_json::Value::from)).collect::<Option<Vec<_>>>()?)
+                        }
+                    } else if let Some(r) = v.strip_prefix("s:") {
+                        serde_json::Value::String(String::from_utf8(parse_bytes(r)?).ok()?)
+                    } else if let Some(r) = v.strip_prefix("t:") {
+                        serde_json::Value::Array(r.split(',').map(|x| parse_bytes(x).and_then(|b| String::from_utf8(b).ok()).map(serde_json::Value::String)).collect::<Option<Vec<_>>>()?)
+                    } else { return None; };
+                    m.insert(k.to_string(), val);
+                }
+                match rln_witness_from_json(serde_json::Value::Object(m)) {
+                    Ok(wi) => format!("ok {}", show_witness(&wi)),
+                    Err(_) => "err".into(),
+                }
+            }
             // JSON codec round trip of a decoded witness: decode(bytes) -> json -> witness -> bytes
             ("json_rt", 2) => match deserialize_witness(&parse_bytes(w[1])?) {
                 Ok((wi, _)) => {
